@@ -29,6 +29,9 @@ class RoundTripTask(Task):
         dec_info = r.func(FUNC)
         out['functions'].append(dec_info.describe())
         for n in self.lengths:
+            if any(x['status'] == 'refuted' for x in out['results']):
+                out['notes'].append(f'{self.name}: stopped at the first payload length with a refuted obligation')
+                break
             try:
                 self.one(r, enc_info, dec_info, n, tier, out)
             except V.Unsupported as u:
